@@ -155,6 +155,36 @@ func c03Enum() []*xp.Node {
 			}
 		}
 	}
+	// long chains ("every depth"): n operands joined by one operator, nested to the left, to the right, and
+	// as a balanced tree; the fully parenthesised form of a chain nests n-1 deep
+	for _, op := range []string{"-", "+", "*", "div", "mod", "and", "or", "=", "!=", "<", ">="} {
+		for _, n := range []int{20, 33, 34, 40, 65, 130} {
+			ops := make([]*xp.Node, n)
+			for i := range ops {
+				ops[i] = xp.Num(fmt.Sprint(i%9 + 1))
+			}
+			left := ops[0]
+			for _, o := range ops[1:] {
+				left = xp.Bin(op, left, o)
+			}
+			right := ops[n-1]
+			for i := n - 2; i >= 0; i-- {
+				right = xp.Bin(op, ops[i], right)
+			}
+			var bal func(lo, hi int) *xp.Node
+			bal = func(lo, hi int) *xp.Node {
+				if hi-lo == 1 {
+					return ops[lo]
+				}
+				mid := (lo + hi) / 2
+				return xp.Bin(op, bal(lo, mid), bal(mid, hi))
+			}
+			add(left)
+			add(right)
+			add(bal(0, n))
+			add(xp.Fn("string", xp.Fn("number", xp.Fn("string", xp.Fn("number", left))))) // function calls add nesting too
+		}
+	}
 	return out
 }
 
